@@ -384,11 +384,11 @@ static bool make_base(FILE *out, const MeshSpec &ms, const Cfg &c, int qpos, int
 }
 
 // ------------------------------------------------------------------ single-value semantic mutations
-enum Cls { VALID, SYM, STARTBIT, SEAM, EV_SRC, EV_SPL, EV_EDGE, EV_DEL, EV_ADD, COUNT, SYM_DEL, SYM_INS, ATTDEC, PAIR, TARGETED, NCLS };
+enum Cls { VALID, SYMBOL, STARTBIT, SEAM, EV_SRC, EV_SPL, EV_EDGE, EV_DEL, EV_ADD, COUNT, SYM_DEL, SYM_INS, ATTDEC, PAIR, TARGETED, NCLS };
 static const char *CLSNAME[NCLS] = {"valid", "symbol", "startbit", "seambit", "event_source", "event_split", "event_edge", "event_removed", "event_added",
                                     "declared_count", "symbol_removed", "symbol_inserted", "attribute_decoder_id", "pair", "targeted"};
 struct Job { int base; int cls; int64_t a, b, c; };
-struct Targeted { Script sc; std::string why; };
+struct Targeted { Script sc; std::string why; uint32_t nvert = 0; };
 static std::vector<Base> g_bases; static std::vector<Job> g_jobs; static std::vector<Targeted> g_targeted;
 
 static void shift_events(Script &s, uint32_t from, int delta) {   // symbol ids at or above `from` move by delta
@@ -398,10 +398,15 @@ static void shift_events(Script &s, uint32_t from, int delta) {   // symbol ids 
 static bool apply(const Job &j, Script &s, std::vector<uint8_t> &after, std::string &what) {
   switch (j.cls) {
     case VALID: what += "valid"; return true;
-    case SYM: if ((size_t)j.a >= s.syms.size() || s.syms[j.a] == (uint32_t)j.b) return false;
+    case SYMBOL: if ((size_t)j.a >= s.syms.size() || s.syms[j.a] == (uint32_t)j.b) return false;
       what += std::string("sym[") + S(j.a) + "]:" + SYMCH[s.syms[j.a] & 7] + "->" + SYMCH[j.b & 7]; s.syms[j.a] = (uint32_t)j.b; s.resim = true; return true;
-    case STARTBIT: if ((size_t)j.a >= s.start.size()) return false; s.start[j.a] = !s.start[j.a]; what += "startbit[" + S(j.a) + "]"; return true;
-    case SEAM: if ((size_t)j.a >= s.seams.size() || (size_t)j.b >= s.seams[j.a].size()) return false; s.seams[j.a][j.b] = !s.seams[j.a][j.b]; what += "seam[" + S(j.a) + "][" + S(j.b) + "]"; return true;
+    case STARTBIT: if ((size_t)j.a >= s.start.size()) return false; s.start[j.a] = !s.start[j.a]; what += "startbit[" + S(j.a) + "]";
+      if (j.b) { if (s.start[j.a]) s.nf++; else if (s.nf) s.nf--; what += " (num_faces re-derived)"; } return true;
+    case SEAM: if ((size_t)j.a >= s.seams.size()) return false;
+      if (j.b < 0) { std::vector<bool> &l = s.seams[j.a]; if (l.empty()) return false;   // the whole list of one attribute: inverted / all seams / no seam
+        std::vector<bool> o = l; for (size_t i = 0; i < l.size(); i++) l[i] = j.b == -1 ? !o[i] : j.b == -2; if (l == o) return false;
+        what += "seam[" + S(j.a) + "][*] " + (j.b == -1 ? "inverted" : j.b == -2 ? "all 1" : "all 0"); return true; }
+      if ((size_t)j.b >= s.seams[j.a].size()) return false; s.seams[j.a][j.b] = !s.seams[j.a][j.b]; what += "seam[" + S(j.a) + "][" + S(j.b) + "]"; return true;
     case EV_SRC: if ((size_t)j.a >= s.evs.size()) return false; s.evs[j.a].src += (uint32_t)j.b; s.resim = true; what += "event[" + S(j.a) + "].source" + (j.b > 0 ? "+1" : "-1"); return true;
     case EV_SPL: if ((size_t)j.a >= s.evs.size()) return false; s.evs[j.a].spl += (uint32_t)j.b; s.resim = true; what += "event[" + S(j.a) + "].split" + (j.b > 0 ? "+1" : "-1"); return true;
     case EV_EDGE: if ((size_t)j.a >= s.evs.size()) return false; s.evs[j.a].edge ^= 1; s.resim = true; what += "event[" + S(j.a) + "].edge"; return true;
@@ -433,9 +438,9 @@ static void enumerate_jobs(int bi, Rng &r, bool thorough) {
   auto add = [&](int cls, int64_t a, int64_t b2 = 0, int64_t c = 0) { g_jobs.push_back({bi, cls, a, b2, c}); };
   size_t first = g_jobs.size();
   add(VALID, 0);
-  for (size_t i = 0; i < n; i++) for (int k = 0; k < 5; k++) if (SYM[k] != s.syms[i]) add(SYM, (int64_t)i, SYM[k]);
-  for (size_t i = 0; i < s.start.size(); i++) add(STARTBIT, (int64_t)i);
-  for (size_t a = 0; a < s.seams.size(); a++) for (size_t i = 0; i < s.seams[a].size(); i++) add(SEAM, (int64_t)a, (int64_t)i);
+  for (size_t i = 0; i < n; i++) for (int k = 0; k < 5; k++) if (SYM[k] != s.syms[i]) add(SYMBOL, (int64_t)i, SYM[k]);
+  for (size_t i = 0; i < s.start.size(); i++) { add(STARTBIT, (int64_t)i, 0); add(STARTBIT, (int64_t)i, 1); }
+  for (size_t a = 0; a < s.seams.size(); a++) { for (size_t i = 0; i < s.seams[a].size(); i++) add(SEAM, (int64_t)a, (int64_t)i); for (int k = -1; k >= -3; k--) add(SEAM, (int64_t)a, k); }
   for (size_t i = 0; i < s.evs.size(); i++) { add(EV_SRC, (int64_t)i, -1); add(EV_SRC, (int64_t)i, 1); add(EV_SPL, (int64_t)i, -1); add(EV_SPL, (int64_t)i, 1); add(EV_EDGE, (int64_t)i); add(EV_DEL, (int64_t)i); }
   { // an event added: every (source, split) pair with split <= source for short scripts, a sample otherwise; both edges
     std::vector<std::pair<uint32_t, uint32_t>> ps;
@@ -454,7 +459,7 @@ static void enumerate_jobs(int bi, Rng &r, bool thorough) {
       for (uint8_t v : vals) if (v != b.after[p] && seen.insert(v).second) add(ATTDEC, (int64_t)p, v); }
   }
   size_t last = g_jobs.size();
-  int np = thorough ? (int)std::min<size_t>(400, (last - first) / 2) : (int)std::min<size_t>(60, (last - first) / 6);
+  int np = thorough ? (int)std::min<size_t>(600, (last - first) / 2) : (int)std::min<size_t>(60, (last - first) / 6);
   for (int k = 0; k < np; k++) {
     size_t x = first + 1 + r.below(last - first - 1), y = first + 1 + r.below(last - first - 1);
     if (g_jobs[x].cls == COUNT && g_jobs[x].b >= 2) continue;     // a wild count makes the second mutation irrelevant
@@ -466,7 +471,7 @@ static void enumerate_jobs(int bi, Rng &r, bool thorough) {
 // ------------------------------------------------------------------ in-process probe of a script (targeted search)
 // Runs the REAL DecodeConnectivity() (header guards, state machine, attribute seams, RecomputeVertices, AssignPointsToCorners) on
 // the script through the scripted traversal decoder and looks at the accepted tables with the eyes of the attribute traversers.
-struct Probe { bool accepted = false, degenerate = false, glued = false, danger = false, dfs_oob = false; int nfaces = 0; std::string note; };
+struct Probe { bool accepted = false, degenerate = false, glued = false, danger = false, dfs_oob = false; int nfaces = 0; uint32_t nvert = 0; std::string note; };
 // the hypothesis DepthFirstTraverser needs (TRAVS): a vertex that IsOnBoundary() denies has a right corner at every corner
 template <class T> static bool table_danger(const T *t, int nverts) {
   for (CornerIndex c(0); c < (uint32_t)t->num_corners(); ++c) {
@@ -527,6 +532,7 @@ static Probe probe(const Script &s0) {
   if (!impl.DecodeConnectivity()) return p;
   p.accepted = true;
   const CornerTable *ct = impl.corner_table_.get(); p.nfaces = ct->num_faces();
+  for (VertexIndex v(0); v < (uint32_t)ct->num_vertices(); ++v) if (ct->LeftMostCorner(v) != kInvalidCornerIndex) p.nvert++;
   for (FaceIndex f(0); f < (uint32_t)ct->num_faces(); ++f) { VertexIndex a = ct->Vertex(CornerIndex(3 * f.value())), b = ct->Vertex(CornerIndex(3 * f.value() + 1)), c = ct->Vertex(CornerIndex(3 * f.value() + 2)); if (a == b || b == c || a == c) p.degenerate = true; }
   for (CornerIndex c(0); c < (uint32_t)ct->num_corners(); ++c) { CornerIndex o = ct->Opposite(c); if (o == kInvalidCornerIndex) continue;
     if (ct->Vertex(ct->Next(c)) != ct->Vertex(ct->Previous(o)) || ct->Vertex(ct->Previous(c)) != ct->Vertex(ct->Next(o))) p.glued = true; }
@@ -564,7 +570,7 @@ static void consider(const Script &s, const char *how, Rng &r, int keep_pct, std
   g_probe_acc++; g_probe_degenerate += p.degenerate; g_probe_glued += p.glued; g_probe_danger += p.danger; g_probe_dfs_oob += p.dfs_oob;
   std::string why = how; if (p.degenerate) why += "+degenerate"; if (p.glued) why += "+misglued"; if (p.danger) why += "+DANGER"; if (p.dfs_oob) why += "+DFSOOB[" + p.note + "]";
   for (char &ch : why) if (ch == ' ') ch = '_';
-  if (p.danger || p.dfs_oob || ((p.degenerate || p.glued) && r.chance(std::min(100, keep_pct * 3))) || r.chance(keep_pct)) out.push_back({s, why});
+  if (p.danger || p.dfs_oob || ((p.degenerate || p.glued) && r.chance(std::min(100, keep_pct * 3))) || r.chance(keep_pct)) { Targeted t; t.sc = s; t.why = why; t.nvert = p.nvert; out.push_back(t); }
 }
 // start-face variants of a decoder-order script: exterior only; interior start faces (bits true) with the matching face count
 static void with_start_variants(const DScript &ds, Rng &r, int nattr, const char *how, int keep_pct, std::vector<Targeted> &out) {
@@ -579,13 +585,14 @@ static void with_start_variants(const DScript &ds, Rng &r, int nattr, const char
   }
 }
 static bool alive(const DScript &ds, Rng &r) { std::vector<bool> none(ds.d.size() + 2, false); return probe(from_dscript(ds, 0, none, 0, r, 0, false)).accepted; }
+static int g_force_maxlen = 0, g_force_ngrow = 0;   // mode `probe`: a larger in-process search
 static void targeted_search(Rng &r, bool thorough, std::vector<Targeted> &out) {
   // (0) the two witnesses of Properties_EB.v
-  { DScript w; w.d = {7, 1}; w.ev = {{0, 1, 1}}; for (int na = 0; na < 3; na++) { Script s = from_dscript(w, 0, {false, false}, na, r, 30, true); s.nv = 3; s.nsplit = 1; out.push_back({s, "EB-witness-degenerate-faces-E,S"}); }
-    DScript g; g.d = {7, 3, 3}; for (int na = 0; na < 3; na++) { Script s = from_dscript(g, 1, {true, true, true, true, true}, na, r, 30, false); s.nv = 5; s.nsplit = 0; out.push_back({s, "EB-witness-misglued-start-face-E,L,L"}); }
-    DScript g2; g2.d = {7, 3}; for (int na = 0; na < 3; na++) { Script s = from_dscript(g2, 1, {true, true, true, true}, na, r, 30, false); out.push_back({s, "EB-witness-misglued-start-face-E,L"}); } }
+  { DScript w; w.d = {7, 1}; w.ev = {{0, 1, 1}}; for (int na = 0; na < 3; na++) { Script s = from_dscript(w, 0, {false, false}, na, r, 30, true); s.nv = 3; s.nsplit = 1; { Targeted t; t.sc = s; t.why = "EB-witness-degenerate-faces-E,S"; t.nvert = 2; out.push_back(t); } }
+    DScript g; g.d = {7, 3, 3}; for (int na = 0; na < 3; na++) { Script s = from_dscript(g, 1, {true, true, true, true, true}, na, r, 30, false); s.nv = 5; s.nsplit = 0; { Targeted t; t.sc = s; t.why = "EB-witness-misglued-start-face-E,L,L"; t.nvert = 5; out.push_back(t); } }
+    DScript g2; g2.d = {7, 3}; for (int na = 0; na < 3; na++) { Script s = from_dscript(g2, 1, {true, true, true, true}, na, r, 30, false); { Targeted t; t.sc = s; t.why = "EB-witness-misglued-start-face-E,L"; t.nvert = 4; out.push_back(t); } } }
   // (1) every symbol list up to a length (first decoded symbol E), no event / every single event joining an earlier L,R,E to a later S
-  const int maxlen = thorough ? 6 : 5;
+  const int maxlen = g_force_maxlen ? g_force_maxlen : thorough ? 6 : 5;
   for (int len = 1; len <= maxlen; len++) {
     long total = 1; for (int i = 1; i < len; i++) total *= 5;
     for (long code = 0; code < total; code++) {
@@ -599,7 +606,7 @@ static void targeted_search(Rng &r, bool thorough, std::vector<Targeted> &out) {
   }
   // (2) grown scripts: symbol by symbol among the choices that keep the symbol loop alive (oracle = the real decoder); S symbols get
   //     split events aimed at earlier L/R/E symbols (vertex merges), weights favour S and E (many components joined in odd ways)
-  const int ngrow = thorough ? 9000 : 1200;
+  const int ngrow = g_force_ngrow ? g_force_ngrow : thorough ? 20000 : 2000;
   for (int t = 0; t < ngrow; t++) {
     DScript ds; ds.d.push_back(7);
     const int want = (int)r.range(2, thorough ? 22 : 14);
@@ -629,7 +636,10 @@ static std::string validate(const PointCloud &pc, const Mesh *m) {
     if (a->num_components() <= 0) return "num_components <= 0";
     if (!a->is_mapping_identity() && a->indices_map_size() != pc.num_points()) return "point map size != num_points";
     if ((uint64_t)a->buffer()->data_size() < (uint64_t)a->size() * a->byte_stride()) return "attribute buffer too small";
-    for (PointIndex p(0); p < pc.num_points(); ++p) if (a->mapped_index(p).value() >= a->size()) return "point maps to a missing value";
+    for (PointIndex p(0); p < pc.num_points(); ++p) if (a->mapped_index(p).value() >= a->size()) {
+      bool on_face = false; if (m) for (FaceIndex f(0); f < m->num_faces() && !on_face; ++f) for (int j = 0; j < 3; j++) if (m->face(f)[j] == p) on_face = true;
+      if (m && !on_face && a->mapped_index(p) == kInvalidAttributeValueIndex) return "point maps to a missing value [point " + U(p.value()) + " of " + U(pc.num_points()) + " is on no face; attribute " + S(i) + " maps it to kInvalidAttributeValueIndex]";
+      return "point maps to a missing value"; }
     std::vector<uint8_t> buf(a->byte_stride() + 8); volatile uint8_t sink = 0;
     for (PointIndex p(0); p < pc.num_points(); ++p) { a->GetMappedValue(p, buf.data()); sink ^= buf[0]; }
   }
@@ -637,7 +647,8 @@ static std::string validate(const PointCloud &pc, const Mesh *m) {
 }
 static const uint64_t K_PER_BYTE = 4096, K_PER_ELEMENT = 4096, C_FIXED = 24ull << 20;
 // returns 0 rejected, 1 accepted, 2 rejected after the connectivity section was accepted (the attribute stage was reached)
-static int run_stream(FILE *out, const std::vector<uint8_t> &bytes, const std::string &label, int entry, Shared *sh, long *bangs) {
+static Probe probe(const Script &s0);
+static int run_stream(FILE *out, const std::vector<uint8_t> &bytes, const std::string &label, int entry, Shared *sh, long *bangs, const Script *sc = nullptr) {
   std::vector<uint8_t> copy = bytes;
   g_declared = 0; g_saw_num_attributes = false; g_live = 0; g_peak = 0; g_maxreq = 0; g_track = true;
   std::string res, bad; bool ok = false;
@@ -651,7 +662,12 @@ static int run_stream(FILE *out, const std::vector<uint8_t> &bytes, const std::s
   g_track = false;
   const std::string hx = hex(bytes.data(), bytes.size());
   if (copy != bytes) { fprintf(out, "! C02 decoder modified its input bytes: %s %s\n", label.c_str(), hx.c_str()); (*bangs)++; }
-  if (!bad.empty()) { fprintf(out, "! C03 decode returned ok with an invalid geometry (%s): entry %d %s %s\n", bad.c_str(), entry, label.c_str(), hx.c_str()); sh->invalid++; (*bangs)++; }
+  if (!bad.empty()) {
+    // the one consequence of the pinned EB finding (interior start face glued without comparing vertices) gets its own tag
+    bool tagged = false;
+    if (sc && bad.find("is on no face") != std::string::npos) { Script q = *sc; for (auto &l : q.seams) l.assign(3 * (size_t)q.nf + 3, true); while (q.seams.size() < q.nattr && q.seams.size() < 255) q.seams.push_back(std::vector<bool>(3 * (size_t)q.nf + 3, true)); tagged = probe(q).glued;   // every edge a seam: RecomputeVertices cannot fail
+      if (!tagged) { q.start.resize(q.syms.size() + 4, true); tagged = probe(q).glued; } }   // start-face bits read behind the end of the coded list (the rANS bit decoder keeps delivering)
+    fprintf(out, "! %s decode returned ok with an invalid geometry (%s): entry %d %s %s\n", tagged ? "C03-unreferenced-point-after-misglued-interior-start-face" : "C03", bad.c_str(), entry, label.c_str(), hx.c_str()); sh->invalid++; (*bangs)++; }
   const uint64_t bound = K_PER_BYTE * bytes.size() + K_PER_ELEMENT * g_declared + C_FIXED;
   const uint64_t worst = std::max<uint64_t>(g_maxreq, g_peak);
   if (res.empty() && worst > bound) { fprintf(out, "! C18 allocation not justified by input length + declared counts: max_request=%llu peak=%llu bound=%llu declared=%llu len=%zu %s %s\n",
@@ -664,6 +680,7 @@ static void publish(Shared *sh, const std::string &label, const std::vector<uint
   snprintf(sh->label, sizeof sh->label, "%s", label.c_str());
   sh->len = (uint32_t)std::min(bytes.size(), sizeof sh->bytes); memcpy(sh->bytes, bytes.data(), sh->len);
 }
+static FILE *g_dump = nullptr;   // debugging aid: HOSTILE_DUMP=<file> records every stream
 static void run_job(FILE *out, long idx, Shared *sh) {
   const Job &j = g_jobs[idx]; const Base &b = g_bases[j.base];
   Script s = b.sc; std::vector<uint8_t> after = b.after; std::string what;
@@ -677,10 +694,11 @@ static void run_job(FILE *out, long idx, Shared *sh) {
   long bangs = 0;
   if (j.cls == VALID && st != b.all) { fprintf(out, "! SELFCHECK re-serialised unmodified stream differs from the encoder's: %s %s\n", label.c_str(), hex(st.data(), st.size()).c_str()); bangs++; }
   publish(sh, label, st); sh->stage = 1;
-  int r = run_stream(out, st, label, 0, sh, &bangs);
+  int r = run_stream(out, st, label, 0, sh, &bangs, &s);
   if (j.cls == VALID && r != 1) { fprintf(out, "! SELFCHECK the unmodified stream is not accepted: %s %s\n", label.c_str(), hex(st.data(), st.size()).c_str()); bangs++; }
-  if (r == 1 && j.cls != VALID) { sh->stage = 2; run_stream(out, st, label, 4, sh, &bangs); }
+  if (r == 1 && j.cls != VALID) { sh->stage = 2; run_stream(out, st, label, 4, sh, &bangs, &s); }
   sh->stage = 0;
+  if (g_dump) fprintf(g_dump, "%s %d %s\n", CLSNAME[j.cls], r, hex(st.data(), st.size()).c_str());
   sh->cnt[j.cls][0]++; sh->cnt[j.cls][r == 1 ? 1 : 2]++; if (r) sh->cnt[j.cls][3]++; sh->cnt[j.cls][5] += bangs;
   line(r == 1 ? "acc" : r == 2 ? "rej-after-connectivity" : "rej");
 }
@@ -737,7 +755,7 @@ static void dump_targeted(FILE *f, const std::vector<Targeted> &ts) {
     put_u32(f, (uint32_t)s.syms.size()); for (uint32_t y : s.syms) put_u32(f, y);
     put_u32(f, (uint32_t)s.evs.size()); for (auto &e : s.evs) { put_u32(f, e.src); put_u32(f, e.spl); put_u32(f, e.edge); }
     put_bits(f, s.start); put_u32(f, (uint32_t)s.seams.size()); for (auto &l : s.seams) put_bits(f, l);
-    put_u32(f, (uint32_t)t.why.size()); fwrite(t.why.data(), 1, t.why.size(), f); }
+    put_u32(f, (uint32_t)t.why.size()); fwrite(t.why.data(), 1, t.why.size(), f); put_u32(f, t.nvert); }
   long c[6] = {g_probed, g_probe_acc, g_probe_degenerate, g_probe_glued, g_probe_danger, g_probe_dfs_oob}; fwrite(c, sizeof c, 1, f);
 }
 static bool load_targeted(FILE *f, std::vector<Targeted> *ts) {
@@ -747,9 +765,155 @@ static bool load_targeted(FILE *f, std::vector<Targeted> *ts) {
     s.syms.resize(k); for (auto &y : s.syms) if (!get_u32(f, &y)) return false;
     if (!get_u32(f, &k)) return false; s.evs.resize(k); for (auto &e : s.evs) if (!get_u32(f, &e.src) || !get_u32(f, &e.spl) || !get_u32(f, &e.edge)) return false;
     if (!get_bits(f, &s.start) || !get_u32(f, &k)) return false; s.seams.resize(k); for (auto &l : s.seams) if (!get_bits(f, &l)) return false;
-    if (!get_u32(f, &k) || k > 100000) return false; t.why.resize(k); if (k && fread(&t.why[0], 1, k, f) != k) return false;
+    if (!get_u32(f, &k) || k > 100000) return false; t.why.resize(k); if (k && fread(&t.why[0], 1, k, f) != k) return false; if (!get_u32(f, &t.nvert)) return false;
     ts->push_back(t); }
   long c[6]; if (fread(c, sizeof c, 1, f) != 1) return false;
   g_probed = c[0]; g_probe_acc = c[1]; g_probe_degenerate = c[2]; g_probe_glued = c[3]; g_probe_danger = c[4]; g_probe_dfs_oob = c[5];
   return true;
+}
+
+// ------------------------------------------------------------------ main
+static const Cfg CFGS[] = {
+  // method speed forced-prediction atts ipos
+  {0, 0, -1, 3, false, "std s0 tex+normal (prediction-degree traversal, tex-coords portable, geometric normal)"},
+  {2, 0, -1, 1, false, "val s0 tex"},
+  {0, 5, -1, 0, false, "std s5 positions only (depth-first, parallelogram)"},
+  {2, 5, -1, 0, false, "val s5 positions only"},
+  {0, 5, -1, 5, false, "std s5 tex+generic (per-corner attributes, seams)"},
+  {2, 5, -1, 6, false, "val s5 normal+generic"},
+  {0, 3, MESH_PREDICTION_CONSTRAINED_MULTI_PARALLELOGRAM, 1, false, "std s3 constrained multi-parallelogram pos+tex"},
+  {2, 1, MESH_PREDICTION_CONSTRAINED_MULTI_PARALLELOGRAM, 0, false, "val s1 constrained multi-parallelogram pos"},
+  {0, 7, -1, 3, false, "std s7 tex+normal (single connectivity)"},
+  {2, 7, -1, 1, false, "val s7 tex (single connectivity)"},
+  {0, 10, -1, 1, false, "std s10 tex (difference prediction)"},
+  {0, 0, -1, 1, true, "std s0 integer positions + tex"},
+  {2, 5, -1, 2, true, "val s5 integer positions + normal"},
+  {0, 2, MESH_PREDICTION_PARALLELOGRAM, 3, false, "std s2 parallelogram tex+normal"},
+  {2, 0, -1, 3, false, "val s0 tex+normal"},
+  {0, 5, -1, 7, false, "std s5 tex+normal+generic (3 attribute data)"},
+};
+// debugging aid: h_hostile table "<script text>": the tables the real connectivity decoder builds for a script
+static bool parse_script(const std::string &t, Script *s) {
+  std::stringstream ss(t); std::string kv;
+  while (std::getline(ss, kv, ',')) { size_t e = kv.find('='); if (e == std::string::npos) return false; std::string k = kv.substr(0, e), v = kv.substr(e + 1);
+    if (k == "m") s->method = atoi(v.c_str()); else if (k == "nv") s->nv = (uint32_t)strtoul(v.c_str(), 0, 10); else if (k == "nf") s->nf = (uint32_t)strtoul(v.c_str(), 0, 10);
+    else if (k == "na") s->nattr = (uint32_t)strtoul(v.c_str(), 0, 10); else if (k == "ns") s->nsym = (uint32_t)strtoul(v.c_str(), 0, 10); else if (k == "nsp") s->nsplit = (uint32_t)strtoul(v.c_str(), 0, 10);
+    else if (k == "sy") { if (v != "-") for (char c : v) s->syms.push_back(c == 'C' ? 0 : c == 'S' ? 1 : c == 'L' ? 3 : c == 'R' ? 5 : 7); }
+    else if (k == "ev") { if (v != "-") { std::stringstream es(v); std::string one; while (std::getline(es, one, ';')) { Ev e{0, 0, 0}; sscanf(one.c_str(), "%u:%u:%u", &e.src, &e.spl, &e.edge); s->evs.push_back(e); } } }
+    else if (k == "sb") { if (v != "-") for (char c : v) s->start.push_back(c == '1'); }
+    else if (k == "se") { if (v != "-") { std::stringstream es(v); std::string one; while (std::getline(es, one, ';')) { std::vector<bool> l; if (one != "e") for (char c : one) l.push_back(c == '1'); s->seams.push_back(l); } } }
+  }
+  return true;
+}
+static int table_main(char **argv) {
+  Script s; if (!parse_script(argv[2], &s)) return 2; s.method = 0;
+  if (getenv("ALLSEAMS")) for (auto &l : s.seams) l.assign(3 * (size_t)s.nf + 3, true);
+  std::vector<uint8_t> sec = ser_conn(s); std::vector<char> bytes(sec.begin() + 1, sec.end()); bytes.insert(bytes.end(), 8, 0);
+  MeshEdgebreakerDecoderImpl<ScrTD> impl; DecRig rig; rig.attach(impl, bytes); ScrTD &td = impl.traversal_decoder_;
+  td.syms.assign(s.syms.rbegin(), s.syms.rend()); td.bits = s.start; td.seams = s.seams;
+  bool ok = impl.DecodeConnectivity(); printf("DecodeConnectivity: %d\n", ok); if (!ok) return 0;
+  const CornerTable *ct = impl.corner_table_.get(); auto I = [](uint32_t x) { return x == 0xffffffffu ? std::string("-") : U(x); };
+  printf("faces:"); for (int c = 0; c < ct->num_corners(); c++) printf("%s%s", c % 3 ? "," : " ", I(ct->Vertex(CornerIndex(c)).value()).c_str()); printf("\nopp:");
+  for (int c = 0; c < ct->num_corners(); c++) printf("%s%s", c % 3 ? "," : " ", I(ct->Opposite(CornerIndex(c)).value()).c_str()); printf("\nlmc:");
+  for (int v = 0; v < ct->num_vertices(); v++) printf(" %s", I(ct->LeftMostCorner(VertexIndex(v)).value()).c_str()); printf("\nhole:");
+  for (size_t v = 0; v < impl.is_vert_hole_.size(); v++) printf("%d", (int)impl.is_vert_hole_[v]); printf("\npoints=%u mesh faces:", rig.mesh.num_points());
+  for (FaceIndex f(0); f < rig.mesh.num_faces(); ++f) printf(" %u,%u,%u", rig.mesh.face(f)[0].value(), rig.mesh.face(f)[1].value(), rig.mesh.face(f)[2].value()); printf("\n");
+  for (size_t a = 0; a < impl.attribute_data_.size(); a++) { const MeshAttributeCornerTable &at = impl.attribute_data_[a].connectivity_data; printf("att %zu nv=%d verts:", a, at.num_vertices());
+    for (int c = 0; c < ct->num_corners(); c++) printf("%s%s", c % 3 ? "," : " ", I(at.Vertex(CornerIndex(c)).value()).c_str()); printf("\n"); }
+  Probe p = probe(s); printf("probe: degenerate=%d glued=%d danger=%d dfs_oob=%d %s\n", p.degenerate, p.glued, p.danger, p.dfs_oob, p.note.c_str());
+  return 0;
+}
+static int one_main(char **argv) {
+  std::ifstream hf(argv[2]); std::string hx; hf >> hx; std::vector<uint8_t> bytes = unhex(hx);
+  FILE *out = fopen(argv[3], "w"); if (!out) return 2; setvbuf(out, nullptr, _IOLBF, 0);
+  Shared *sh = (Shared *)mmap(nullptr, sizeof(Shared), PROT_READ | PROT_WRITE, MAP_SHARED | MAP_ANONYMOUS, -1, 0); memset((void *)sh, 0, sizeof(Shared));
+  std::string errpath = std::string(argv[3]) + ".stderr"; long acc = 0, rej = 0;
+  for (int e : {0, 4}) {
+    fflush(out); pid_t pid = fork();
+    if (pid == 0) { int fd = open(errpath.c_str(), O_WRONLY | O_CREAT | O_TRUNC, 0644); if (fd >= 0) { dup2(fd, 2); close(fd); } alarm(60); long bangs = 0; int r = run_stream(out, bytes, "replay", e, sh, &bangs); fflush(out); _exit(r == 1 ? 10 : 11); }
+    int st = 0; waitpid(pid, &st, 0);
+    if (WIFEXITED(st) && (WEXITSTATUS(st) == 10 || WEXITSTATUS(st) == 11)) { if (WEXITSTATUS(st) == 10) acc++; else rej++; continue; }
+    std::vector<std::string> rep; std::string head = sanitizer_report(errpath, &rep);
+    fprintf(out, "! C02 decoder %s (status %d) on entry %d [%s]: replay %s\n", (WIFSIGNALED(st) && WTERMSIG(st) == SIGALRM) ? "did not return within the time limit (hang)" : "crashed / sanitizer abort", st, e, head.c_str(), hx.c_str());
+    for (auto &l : rep) fprintf(out, "# REPORT %s\n", l.c_str());
+  }
+  fprintf(out, "# STATS replay accepted=%ld rejected=%ld\n", acc, rej); fclose(out); return 0;
+}
+int main(int argc, char **argv) {
+  if (!strcmp(argv[1], "table") && argc >= 3) return table_main(argv);
+  if (!strcmp(argv[1], "probe") && argc >= 5) {   // h_hostile probe <seed> <exhaustive length> <grown scripts>: the in-process search alone
+    Rng pr(strtoull(argv[2], 0, 10)); g_force_maxlen = atoi(argv[3]); g_force_ngrow = atoi(argv[4]); std::vector<Targeted> ts; targeted_search(pr, true, ts);
+    printf("probes=%ld accepted=%ld degenerate=%ld misglued=%ld DANGER=%ld DFS_OOB=%ld\n", g_probed, g_probe_acc, g_probe_degenerate, g_probe_glued, g_probe_danger, g_probe_dfs_oob);
+    for (auto &t : ts) if (t.why.find("DANGER") != std::string::npos || t.why.find("DFSOOB") != std::string::npos) printf("%s %s\n", t.why.c_str(), script_text(t.sc).c_str());
+    return 0; }
+  if (argc < 4) { fprintf(stderr, "usage: h_hostile quick|thorough seed out | one hexfile out | table script\n"); return 2; }
+  if (!strcmp(argv[1], "one")) return one_main(argv);
+  const bool thorough = !strcmp(argv[1], "thorough");
+  Rng r(strtoull(argv[2], 0, 10));
+  FILE *out = fopen(argv[3], "w"); if (!out) return 2; setvbuf(out, nullptr, _IOLBF, 0);
+  const std::string errpath = std::string(argv[3]) + ".stderr", tpath = std::string(argv[3]) + ".targeted";
+  // 1. valid base streams
+  const int nmesh = thorough ? 60 : 26, ncfg = (int)(sizeof CFGS / sizeof CFGS[0]);
+  long total_syms = 0, total_evs = 0, total_seam = 0, total_start = 0, interior = 0; std::map<std::string, int> per_cfg;
+  for (int mi = 0; mi < nmesh; mi++) {
+    MeshSpec ms = gen_mesh(r, mi);
+    if (ms.f.empty() || ms.f.size() > 40) continue;
+    for (int ci = 0; ci < ncfg; ci++) {
+      if (!thorough && ((mi + ci) % 2) != 0) continue;   // quick: half of the (mesh, configuration) grid
+      const Cfg &c = CFGS[ci]; Base b; const int q = (int)r.range(8, 14), sb = 1 + (int)r.below(4);
+      bool ok = c.method == 0 ? make_base<RecStdTE, 0>(out, ms, c, q, sb, &b) : make_base<RecValTE, 2>(out, ms, c, q, sb, &b);
+      if (!ok) continue;
+      g_bases.push_back(b); per_cfg[c.what]++; total_syms += (long)b.sc.syms.size(); total_evs += (long)b.sc.evs.size(); total_start += (long)b.sc.start.size();
+      for (auto &l : b.sc.seams) total_seam += (long)l.size(); for (bool x : b.sc.start) interior += x;
+    }
+  }
+  fprintf(out, "# h_hostile tier=%s seed=%s base_streams=%zu symbols=%ld split_events=%ld start_face_bits=%ld (interior %ld) seam_bits=%ld\n", argv[1], argv[2], g_bases.size(), total_syms, total_evs, total_start, interior, total_seam);
+  fprintf(out, "# SELFCHECK serialiser == real encoder bytes on %ld/%zu unmodified scripts; valence context lists re-derived through the real decoder template == encoder's lists on %ld\n", g_selfcheck_ok, g_bases.size(), g_selfcheck_resim_ok);
+  for (auto &kv : per_cfg) fprintf(out, "# CONFIG %d x %s\n", kv.second, kv.first.c_str());
+  if (g_bases.empty()) { fprintf(out, "! SELFCHECK no base stream could be produced\n"); fclose(out); return 0; }
+  // 2. targeted scripts (in-process probes of the real connectivity decoder, in a child)
+  { fflush(out); pid_t pid = fork();
+    if (pid == 0) { int fd = open(errpath.c_str(), O_WRONLY | O_CREAT | O_TRUNC, 0644); if (fd >= 0) { dup2(fd, 2); close(fd); }
+      alarm(thorough ? 900 : 150); std::vector<Targeted> ts; Rng tr(r.s ^ 0x5151); targeted_search(tr, thorough, ts);
+      FILE *tf = fopen(tpath.c_str(), "wb"); if (!tf) _exit(3); dump_targeted(tf, ts); fclose(tf); _exit(0); }
+    int st = 0; waitpid(pid, &st, 0);
+    if (WIFEXITED(st) && WEXITSTATUS(st) == 0) { FILE *tf = fopen(tpath.c_str(), "rb"); if (!tf || !load_targeted(tf, &g_targeted)) fprintf(out, "! SELFCHECK targeted scripts could not be read back\n"); if (tf) fclose(tf); }
+    else { std::vector<std::string> rep; std::string head = sanitizer_report(errpath, &rep);
+      fprintf(out, "! C02 the real connectivity decoder template %s during the in-process script probes (status %d) [%s] -\n", (WIFSIGNALED(st) && WTERMSIG(st) == SIGALRM) ? "ran out of time" : "crashed", st, head.c_str());
+      for (auto &l : rep) fprintf(out, "# REPORT %s\n", l.c_str()); }
+    unlink(tpath.c_str()); r.next(); }
+  fprintf(out, "# TARGETED probes=%ld accepted=%ld with_degenerate_face=%ld with_misglued_start_face=%ld DANGER(interior vertex, corner without right corner)=%ld checked_DFS_out_of_range=%ld selected=%zu\n",
+          g_probed, g_probe_acc, g_probe_degenerate, g_probe_glued, g_probe_danger, g_probe_dfs_oob, g_targeted.size());
+  // 3. jobs
+  for (size_t bi = 0; bi < g_bases.size(); bi++) if (g_bases[bi].sc.syms.size() <= 60) enumerate_jobs((int)bi, r, thorough);
+  { std::vector<std::vector<int>> by_attr(4);
+    for (size_t bi = 0; bi < g_bases.size(); bi++) if (g_bases[bi].sc.nattr < 3) by_attr[g_bases[bi].sc.nattr].push_back((int)bi);
+    const int donors = thorough ? 8 : 3;
+    for (size_t ti = 0; ti < g_targeted.size(); ti++) {
+      const Script &t = g_targeted[ti].sc; std::vector<int> &c = by_attr[std::min<uint32_t>(t.nattr, 3)];
+      if (c.empty()) continue;
+      const bool hot = g_targeted[ti].why.find("DANGER") != std::string::npos || g_targeted[ti].why.find("DFSOOB") != std::string::npos || g_targeted[ti].why.find("witness") != std::string::npos;
+      // donors: the base streams with the closest face count, one per configuration
+      std::vector<int> cand = c; std::stable_sort(cand.begin(), cand.end(), [&](int x, int y) { auto d = [&](int z) { long v = std::labs((long)g_bases[z].sc.nv - (long)g_targeted[ti].nvert) * 64, w = (long)g_bases[z].sc.nf - (long)t.nf; return v + (w < 0 ? 32 - w : w); }; return d(x) < d(y); });
+      std::vector<int> pick; std::set<std::string> seen;
+      for (int x : cand) { std::string key = g_bases[x].label.substr(g_bases[x].label.find('/')); key = key.substr(0, key.rfind('/')); if (seen.insert(key).second) pick.push_back(x); }
+      if (!hot && (int)pick.size() > donors) {   // half: the configurations whose value counts fit best; half: any
+        size_t keep = (size_t)(donors + 1) / 2; for (size_t i = pick.size(); i > keep + 1; i--) std::swap(pick[i - 1], pick[keep + r.below(i - keep)]); pick.resize((size_t)donors); }
+      for (int x : pick) g_jobs.push_back({x, TARGETED, (int64_t)ti, 0, 0});
+    } }
+  std::map<int, long> per_cls; for (auto &j : g_jobs) per_cls[j.cls]++;
+  { std::string t; for (auto &kv : per_cls) t += std::string(" ") + CLSNAME[kv.first] + "=" + S(kv.second); fprintf(out, "# JOBS total=%zu%s\n", g_jobs.size(), t.c_str()); }
+  for (size_t i = 0; i < g_bases.size(); i += std::max<size_t>(1, g_bases.size() / 10)) fprintf(out, "# SAMPLE %s len=%zu script=%s\n", g_bases[i].label.c_str(), g_bases[i].all.size(), script_text(g_bases[i].sc).c_str());
+  // 4. run
+  if (getenv("HOSTILE_DUMP")) { g_dump = fopen(getenv("HOSTILE_DUMP"), "w"); if (g_dump) setvbuf(g_dump, nullptr, _IOLBF, 0); }
+  Shared *sh = (Shared *)mmap(nullptr, sizeof(Shared), PROT_READ | PROT_WRITE, MAP_SHARED | MAP_ANONYMOUS, -1, 0); memset((void *)sh, 0, sizeof(Shared));
+  run_all(out, sh, errpath, thorough ? 30 : 20);
+  long tot = 0, acc = 0, rej = 0, conn = 0, na = 0, bangs = 0;
+  for (int c = 0; c < NCLS; c++) { if (!sh->cnt[c][0] && !sh->cnt[c][4]) continue;
+    fprintf(out, "# CLASS %s streams=%ld accepted=%ld rejected=%ld connectivity_accepted(attribute_stage_reached)=%ld not_applicable=%ld failures=%ld\n", CLSNAME[c], sh->cnt[c][0], sh->cnt[c][1], sh->cnt[c][2], sh->cnt[c][3], sh->cnt[c][4], sh->cnt[c][5]);
+    tot += sh->cnt[c][0]; acc += sh->cnt[c][1]; rej += sh->cnt[c][2]; conn += sh->cnt[c][3]; na += sh->cnt[c][4]; bangs += sh->cnt[c][5]; }
+  fprintf(out, "# STATS evaluations=%ld accepted=%ld rejected=%ld connectivity_accepted=%ld not_applicable=%ld invalid=%ld crashes=%d hangs=%d failures=%ld worst_alloc_ratio_x1000=%llu\n", tot, acc, rej, conn, na, sh->invalid, g_crashes, g_hangs, bangs, (unsigned long long)sh->worst_alloc_ratio_x1000);
+  fclose(out); unlink(errpath.c_str());
+  fprintf(stderr, "h_hostile: %ld streams, %d crashes, %d hangs\n", tot, g_crashes, g_hangs);
+  return 0;
 }
